@@ -62,6 +62,65 @@ pub struct Forged<S: Scheme> {
     pub guard_log2: Option<f64>,
 }
 
+/// Linear-code schemes, Fiat-Shamir omission: the forger derives the column positions from the transcript
+/// *without* the opened vector v, then adds to the honest v a message whose encoding vanishes on exactly
+/// those positions (and whose inner product with the evaluation vector is non-zero). Columns and paths are
+/// the authentic ones. A verifier that binds v before sampling positions looks somewhere else and rejects.
+pub fn lin_fs_omission_forge<S: Lin + Attack>(sess: &Session<S>, order: &[usize], point: &S::Pt, sel: u64) -> Option<Forged<S>> {
+    use ark_crypto_primitives::sponge::CryptographicSponge;
+    if order.len() != 1 {
+        return None;
+    }
+    let ck = &sess.keys.ck;
+    let p = sess.polys[order[0]].polynomial();
+    let (n_rows, n_cols, rows, ext) = lincode::ref_matrices::<S>(ck, p).ok()?;
+    if n_cols < 2 || n_cols > 96 {
+        return None;
+    }
+    let cols = lincode::columns_of(&ext);
+    let n_ext = cols.len();
+    let leaves: Vec<Vec<u8>> = cols.iter().map(|c| lincode::col_hash(c)).collect();
+    let root = lincode::ref_root(&leaves);
+    let t = lincode::expected_t::<Fr>(S::sec_param(ck), S::dist(ck), n_ext)?;
+    let (a, b) = lincode::tensor::<S>(point, n_cols, n_rows);
+    let row_comb = |coef: &[Fr]| -> Vec<Fr> { (0..n_cols).map(|j| (0..n_rows).fold(Fr::zero(), |acc, i| acc + coef[i] * rows[i][j])).collect() };
+    let mut sp = sess.sponge();
+    sp.absorb(&crate::util::ser(&root));
+    let mut wf_out = None;
+    if S::wf(ck) {
+        let r = sp.squeeze_field_elements::<Fr>(n_rows);
+        let w = row_comb(&r);
+        sp.absorb(&w);
+        wf_out = Some(w);
+    }
+    sp.absorb(&S::point_vec(point));
+    // v is NOT absorbed by the forger
+    let idx = lincode::ref_indices(n_ext, t, &mut sp);
+    let mut distinct = idx.clone();
+    distinct.sort();
+    distinct.dedup();
+    if distinct.len() >= n_cols {
+        return None;
+    }
+    let y = lincode::message_vanishing_on::<S>(ck, n_cols, &distinct, sel >> 8)?;
+    let shift = lincode::inner(&y, &a);
+    if shift.is_zero() {
+        return None;
+    }
+    let v: Vec<Fr> = row_comb(&b).iter().zip(&y).map(|(x, d)| *x + d).collect();
+    let claimed = vec![lincode::inner(&v, &a)];
+    let columns: Vec<Vec<Fr>> = idx.iter().map(|q| cols[*q].clone()).collect();
+    let paths = idx.iter().map(|q| lincode::ref_path(&leaves, *q)).collect();
+    let mp = vec![MProof { opening: lincode::MSingle { paths, v, columns }, well_formedness: wf_out }];
+    let proof = lincode::proofs_unmirror::<S>(&mp).ok()?;
+    Some(Forged {
+        proof,
+        claimed,
+        desc: format!("Fiat-Shamir omission forgery: positions derived without absorbing v, then v += a message whose encoding vanishes on the {} queried positions ({n_rows} x {n_cols} matrix, {n_ext} codeword positions)", distinct.len()),
+        guard_log2: None,
+    })
+}
+
 /// Linear-code schemes, "agreement on a window of the codeword": q_0 = p_0 + (a message whose encoding
 /// vanishes on the first m codeword positions, added to the first matrix row), so that the encoded
 /// matrices of p_0 and q_0 have identical columns below m. The library's own prover runs on (q, state_q)
@@ -460,6 +519,93 @@ impl Attack for Pst13 {
 // ------------------------------------------------------------------------------------------------
 
 impl Attack for Hyrax {
+    const HAS_FORGE: bool = true;
+    /// Fiat-Shamir omission forgeries: the forger computes the challenge c from the transcript *without* one
+    /// of the auxiliary commitments and then solves the verification equations for that commitment.
+    /// Variant A (com_d omitted) needs public data only; variant B (com_b omitted) runs the honest first
+    /// equation with the prover's knowledge and solves the second one. A verifier whose challenge binds
+    /// every auxiliary commitment rejects both.
+    fn forge(sess: &Session<Self>, order: &[usize], point: &Vec<Fr>, sel: u64) -> Option<Forged<Self>> {
+        use crate::refv::eq_tensor;
+        use crate::util::ser_unc;
+        use ark_crypto_primitives::sponge::CryptographicSponge;
+        use ark_ff::Field;
+        let vk = &sess.keys.vk;
+        let n = point.len();
+        if n % 2 == 1 {
+            return None;
+        }
+        let dim = 1usize << (n / 2);
+        if vk.com_key.len() != dim {
+            return None;
+        }
+        let rev: Vec<Fr> = point.iter().rev().cloned().collect();
+        let l = eq_tensor(&rev[n / 2..]);
+        let r = eq_tensor(&rev[..n / 2]);
+        let variant_b = (sel >> 41) % 2 == 1;
+        let g0 = vk.com_key[0];
+        let com = |z: &[Fr], blind: Fr| -> G1 { z.iter().zip(&vk.com_key).fold(vk.h * blind, |acc, (zi, g)| acc + *g * zi) };
+        let mut sp = sess.sponge();
+        let mut g = rng(sel ^ 0x4879);
+        let mut proofs = Vec::new();
+        let mut claimed = Vec::new();
+        for i in order {
+            let rows = &sess.comms[*i].commitment().row_coms;
+            if rows.len() != dim {
+                return None;
+            }
+            let truth = sess.true_value(*i, point);
+            let vfalse = truth + nz::<Fr>(g.next_u64());
+            let (r_eval, r_b, z_d, z_b_rand) = (Fr::rand(&mut g), Fr::rand(&mut g), Fr::rand(&mut g), Fr::rand(&mut g));
+            let com_eval = (g0 * vfalse + vk.h * r_eval).into_affine();
+            let tp: G1 = l.iter().zip(rows).fold(G1::zero(), |acc, (li, row)| acc + *row * li);
+            sp.absorb(&ser_unc(vk));
+            sp.absorb(&ser_unc(rows));
+            sp.absorb(point);
+            sp.absorb(&ser_unc(&com_eval));
+            let pr = if !variant_b {
+                // A: com_d is not in the forger's transcript
+                let b = Fr::rand(&mut g);
+                let com_b = (g0 * b + vk.h * r_b).into_affine();
+                sp.absorb(&ser_unc(&com_b));
+                let c: Fr = sp.squeeze_field_elements(1)[0];
+                let mut z: Vec<Fr> = (0..dim).map(|_| Fr::rand(&mut g)).collect();
+                let k = r.iter().position(|x| !x.is_zero())?;
+                let rest: Fr = r.iter().zip(&z).enumerate().filter(|(j, _)| *j != k).fold(Fr::zero(), |a, (_, (x, y))| a + *x * y);
+                z[k] = (b + c * vfalse - rest) * r[k].inverse()?;
+                let z_b = c * r_eval + r_b;
+                let com_d = (com(&z, z_d) - tp * c).into_affine();
+                HyraxProof { com_eval, com_d, com_b, z, z_d, z_b, r_eval }
+            } else {
+                // B: com_b is not in the forger's transcript; the first equation is run honestly
+                let st: crate::oracle::MHyraxState = crate::lincode::mirror(&sess.states[*i]).ok()?;
+                let evals = &sess.polys[*i].polynomial().evaluations;
+                if st.randomness.len() != dim || evals.len() != dim * dim {
+                    return None;
+                }
+                let lm: Vec<Fr> = (0..dim).map(|j| (0..dim).fold(Fr::zero(), |a, i2| a + l[i2] * evals[j * dim + i2])).collect();
+                let lr: Fr = l.iter().zip(&st.randomness).fold(Fr::zero(), |a, (x, y)| a + *x * y);
+                let d: Vec<Fr> = (0..dim).map(|_| Fr::rand(&mut g)).collect();
+                let r_d = Fr::rand(&mut g);
+                let com_d = com(&d, r_d).into_affine();
+                sp.absorb(&ser_unc(&com_d));
+                let c: Fr = sp.squeeze_field_elements(1)[0];
+                let z: Vec<Fr> = lm.iter().zip(&d).map(|(x, y)| c * x + y).collect();
+                let z_d2 = c * lr + r_d;
+                let rz: Fr = r.iter().zip(&z).fold(Fr::zero(), |a, (x, y)| a + *x * y);
+                let com_b = (g0 * rz + vk.h * z_b_rand - com_eval * c).into_affine();
+                HyraxProof { com_eval, com_d, com_b, z, z_d: z_d2, z_b: z_b_rand, r_eval }
+            };
+            proofs.push(pr);
+            claimed.push(vfalse);
+        }
+        Some(Forged {
+            proof: proofs,
+            claimed,
+            desc: format!("Fiat-Shamir omission forgery: challenge computed without {}, which is then solved for from the verification equations", if variant_b { "com_b (first equation run honestly with the prover's state)" } else { "com_d (public data only)" }),
+            guard_log2: None,
+        })
+    }
     fn mutate(
         sess: &Session<Self>,
         _order: &[usize],
@@ -909,7 +1055,11 @@ macro_rules! lin_attack {
         impl Attack for $s {
             const HAS_FORGE: bool = true;
             fn forge(sess: &Session<Self>, order: &[usize], point: &Self::Pt, sel: u64) -> Option<Forged<Self>> {
-                lin_window_forge::<Self>(sess, order, point, sel)
+                if (sel >> 43) % 3 == 0 {
+                    lin_fs_omission_forge::<Self>(sess, order, point, sel).or_else(|| lin_window_forge::<Self>(sess, order, point, sel))
+                } else {
+                    lin_window_forge::<Self>(sess, order, point, sel)
+                }
             }
             fn mutate(
                 sess: &Session<Self>,
